@@ -28,6 +28,9 @@ type GenOpt struct {
 	CmdLiteral bool
 	StoreLoad  bool
 	Noise      bool // indentation, spacing variants, comments, blank lines
+	// TrailWS: some entries (outside cmdline blocks) end in blanks or tabs; only indentation is
+	// insignificant, so the trailing white space is part of the expression.
+	TrailWS bool
 	// NoLoneAlt: never let a single line with a top-level alternation stand alone before a
 	// marker (open known finding D6 class).
 	NoLoneAlt bool
@@ -258,6 +261,19 @@ func (s *genState) entry(noTopAlt bool) string {
 	return e
 }
 
+// trail appends significant trailing white space to an entry now and then.
+func (s *genState) trail(e string) string {
+	if !s.o.TrailWS || rapid.IntRange(0, 5).Draw(s.t, "trail") != 0 {
+		return e
+	}
+	c := e + rapid.SampledFrom([]string{" ", "\t", "  ", " \t"}).Draw(s.t, "trailws")
+	if !ValidEntryWS(expandAll(c, s.defVal)) {
+		return e
+	}
+	s.label("entry-with-trailing-blank")
+	return c
+}
+
 func (s *genState) genFile(i int) {
 	t := s.t
 	name := fmt.Sprintf("f%d", i)
@@ -312,6 +328,9 @@ func (s *genState) genFile(i int) {
 				if ValidEntry(expandAll(c, localDefs)) {
 					e = c
 				}
+			}
+			if c := s.trail(e); c == e || ValidEntryWS(expandAll(c, localDefs)) {
+				e = c
 			}
 			ind := ""
 			if s.o.Noise && rapid.IntRange(0, 3).Draw(t, "find") == 0 {
@@ -438,6 +457,9 @@ func (s *genState) body(depth int, inCmd bool) []Line {
 			s.label("factoring-cluster")
 		case k < 45:
 			e := s.entry(false)
+			if !inCmd {
+				e = s.trail(e)
+			}
 			add(Line{K: KEntry, T: e})
 			sinceFlush++
 			loneAltPending = sinceFlush == 1 && topLevelAlt(e)
